@@ -45,6 +45,7 @@ def setup(ctx):
     ctx.require("monitor", "l2_other_success_statuses", 20)
     ctx.require("monitor", "l2_empty_meta", 10)
     ctx.require("monitor", "l3_resumed_sessions", 8)
+    ctx.require("monitor", "l3_client_varieties", 18)
     ctx.require("monitor", "l2_request_in_two_records", 15)
     ctx.require("monitor", "l2_text_bodies_with_charset_parameter", 15)
     ctx.require("monitor", "static_files_rewritten_while_serving", 12)
@@ -368,6 +369,42 @@ def run_l3(ctx):
                                     "connection": nth + 1, "session_reused": reused, "error": err}
                             compare(ctx, case, b"20 text/gemini\r\n" + files[name], got, err is None, "L3")
                             ctx.case(("L3", backend, "resuming-client", ver.name, with_cert, nth, reused, bool(err)), True, sample={"level": "L3", **case})
+                # other legitimate clients: no SNI, ALPN offered, TLS 1.2 only with AEAD / ChaCha / CBC suites, session
+                # tickets refused, RSA and Ed25519 client certificates, post-handshake authentication offered
+                rsa_id, ed_id = _certs.identity("c06-client-rsa", "rsa"), _certs.identity("c06-client-ed", "ed25519")
+                kinds = {
+                    "no-sni": lambda c: None,
+                    "alpn": lambda c: c.set_alpn_protocols(["gemini", "h2"]),
+                    "tls12": lambda c: setattr(c, "maximum_version", _ssl.TLSVersion.TLSv1_2),
+                    "tls12-chacha": lambda c: (setattr(c, "maximum_version", _ssl.TLSVersion.TLSv1_2), c.set_ciphers("ECDHE+CHACHA20")),
+                    "tls12-aes-cbc": lambda c: (setattr(c, "maximum_version", _ssl.TLSVersion.TLSv1_2), c.set_ciphers("ECDHE-ECDSA-AES128-SHA256:ECDHE-RSA-AES128-SHA256")),
+                    "no-tickets": lambda c: setattr(c, "options", c.options | _ssl.OP_NO_TICKET),
+                    "client-cert-rsa": lambda c: c.load_cert_chain(rsa_id.certfile, rsa_id.keyfile),
+                    "client-cert-ed25519": lambda c: c.load_cert_chain(ed_id.certfile, ed_id.keyfile),
+                    "post-handshake-auth-offered": lambda c: setattr(c, "post_handshake_auth", True),
+                }
+                name = "f5_16500.gmi" if "f5_16500.gmi" in files else sorted(files)[0]
+                for kname, mk in kinds.items():
+                    cctx = _ssl.SSLContext(_ssl.PROTOCOL_TLS_CLIENT)
+                    cctx.check_hostname = False
+                    cctx.verify_mode = _ssl.CERT_NONE
+                    got, err = b"", None
+                    try:
+                        mk(cctx)
+                        sk = cctx.wrap_socket(_socket.create_connection((srv.host, srv.port), timeout=20), server_hostname=None if kname == "no-sni" else "localhost")
+                        sk.sendall(f"gemini://localhost/{name}\r\n".encode())
+                        while True:
+                            ch = sk.recv(65536)
+                            if not ch:
+                                break
+                            got += ch
+                        sk.close()
+                    except (OSError, _ssl.SSLError) as e:
+                        err = repr(e)[:100]
+                    ctx.count("monitor", "l3_client_varieties")
+                    case = {"backend": backend, "len": len(files[name]), "btype": "str", "source": "static:client-variety", "reader": "fast", "client": kname, "error": err}
+                    compare(ctx, case, b"20 text/gemini\r\n" + files[name], got, err is None, "L3")
+                    ctx.case(("L3", backend, "client-variety", kname, bool(err)), True, sample={"level": "L3", **case})
                 # the files change while the server runs (a deploy that keeps time stamps - rsync -t, cp -p, tar x - or
                 # an ordinary rewrite): every request gets the bytes that are on disk when it is made
                 for name, keep_mtime, same_size in (("f3_16384.gmi", True, True), ("f1_1.gmi", True, True), ("odd_crlf.gmi", True, True), ("f5_16500.gmi", False, True),
